@@ -33,8 +33,16 @@ func (u *UseCase) Set(ctx context.Context, key string, content io.Reader) error 
 
 	var (
 		minSize uint64
-		closer  io.Closer
+		closers []io.Closer
 	)
+	defer func() {
+		// The files of earlier attempts stay chained into the retry stream (an
+		// attempt may fail before it has re-read all of them), so they are closed
+		// only once the stream is no longer needed.
+		for _, closer := range closers {
+			closer.Close()
+		}
+	}()
 	for dir, ok := range dirs.Iterate(u.randGen) {
 		if !ok {
 			return fs_db.ErrNoFreeSpace
@@ -49,11 +57,7 @@ func (u *UseCase) Set(ctx context.Context, key string, content io.Reader) error 
 		if err != nil {
 			var errNotEnoughSpace model.NotEnoughSpaceError
 			if errors.As(err, &errNotEnoughSpace) {
-				if closer != nil {
-					closer.Close()
-				}
-
-				closer = errNotEnoughSpace
+				closers = append(closers, errNotEnoughSpace)
 				content = errNotEnoughSpace.Reader()
 				minSize = dir.Free
 				continue
@@ -63,10 +67,6 @@ func (u *UseCase) Set(ctx context.Context, key string, content io.Reader) error 
 		}
 
 		break
-	}
-
-	if closer != nil {
-		closer.Close()
 	}
 
 	err = u.cfRepo.Store(ctx, cFile)
